@@ -1,0 +1,13 @@
+//go:build verif
+
+// Verification hooks for property C10 (read-only): compiled only with -tags verif.
+
+package socks5
+
+// VerifC10Buffered reports the number of bytes left in the request's bufio reader.
+func VerifC10Buffered(req *Request) (n int, ok bool) {
+	if req == nil || req.rw == nil {
+		return 0, false
+	}
+	return req.rw.Reader.Buffered(), true
+}
